@@ -47,3 +47,8 @@ Theorem C19_wait_until_unwinds_only_on_child_panic stream scs ops :
   In EEndX (strip (tr _ (wait_world stream scs ops))) -> In (EAns APanic) (strip (tr _ (wait_world stream scs ops))).
 Proof. exact (wait_until_unwinds_only_on_child_panic stream scs ops). Qed.
 Print Assumptions C19_wait_until_unwinds_only_on_child_panic.
+
+Theorem C19_hypothesis_fails_only_by_drop_or_child_panic stream scs ops :
+  dropped _ (wait_world stream scs ops) = true -> In ODrop ops \/ In (EAns APanic) (strip (tr _ (wait_world stream scs ops))).
+Proof. exact (wait_until_dropped_means stream scs ops). Qed.
+Print Assumptions C19_hypothesis_fails_only_by_drop_or_child_panic.
